@@ -10,7 +10,11 @@ META = {
   "for the sync model (volatile store + __sync_synchronize, not expressible in C11 terms) the same harness runs under CBMC's x86-TSO memory model",
   "spin loop unwound 3 times WITHOUT unwinding assertion: a failed CAS iteration only reads (stutter step), executions with more spins "
   "are equivalent to executions with fewer",
-  "objects are allocated before the first thread starts (p_malloc0 supplied by the harness: typed static storage)"],
+  "objects are allocated before the first thread starts (p_malloc0 supplied by the harness: typed static storage)",
+  "CBMC's native threads abort ('pointer handling for concurrency is unsound') on any pointer-typed shared write after the first spawn: on a tree "
+  "whose lock code writes pointers inside lock/trylock/unlock the thr_* queries end INCONCLUSIVE (reported as such, never as a pass); that class is "
+  "covered by the sequential nested_first_lock_* queries (two contexts, B's complete lock call runs at a symbolic platform-model entry - allocator, "
+  "pthread call, atomic builtin - inside A's first lock call on a fresh object; pointer checks on)"],
  "outside": ["more than 3 threads / more than 2 acquisitions per thread", "fairness and progress of the spin loop",
              "non-x86 memory models for the sync spinlock", "pmutex implementations of other platforms (only pmutex-posix.c is compiled on Linux)"],
  "units_included_by_harness": [],
@@ -93,8 +97,31 @@ def seq(name, kind, rc=False):
              bounds={"threads": 1, "pthread_result": "any non-zero int" if rc else "success"})
 
 
+def nested(kind):
+    """sequential nested-context emulation of two overlapping FIRST lock calls on a fresh lock (pointer checks on)"""
+    atomic = kind in ("c11", "sync")     # spin loop: cut without unwinding assertion (a spinning A = blocked = infeasible path)
+    if kind in ("c11", "sync"):
+        units, models, incs = ["src/pspinlock-%s.c" % kind], BASE, ["models/atomics_model.h"]
+        defs = ["LK_SPIN", "LK_ATOMICS", "VMA_PRE_HOOK=c01_preempt_w"]
+        funcs = SPIN_FUNCS
+    elif kind == "sim":
+        units, models, incs = ["src/pspinlock-sim.c", "src/pmutex-posix.c"], PT, REDIR_PT
+        defs = ["LK_SPIN", "LK_PTHREAD", "VM_PRE_HOOK=c01_preempt", "ST_PRE_HOOK=c01_preempt"] + caps(2, nmtx=2)
+        funcs = SPIN_FUNCS + MTX_FUNCS
+    else:
+        units, models, incs = ["src/pmutex-posix.c"], PT, REDIR_PT
+        defs = ["LK_MUTEX", "LK_PTHREAD", "VM_PRE_HOOK=c01_preempt", "ST_PRE_HOOK=c01_preempt"] + caps(2, nmtx=2)
+        funcs = MTX_FUNCS
+    return Q("nested_first_lock_%s" % kind, "harness/C01_nested.c", units=units, models=models, defs=defs, includes=incs,
+             unwind=3, unwindset={"p_spinlock_lock.0": 3}, unwind_assert=not atomic, flags=["--no-unwinding-assertions"] if atomic else [],
+             funcs=funcs, timeout=300,
+             bounds={"contexts": "A + B; B's complete lock/trylock runs at one symbolic platform-model entry inside A's first lock/trylock call",
+                     "preemption_depth": 1, "spin_loop_iterations": 3})
+
+
 def queries(tier):
-    qs = [seq("seq_trylock_c11", "c11"), seq("seq_trylock_sync", "sync"), seq("seq_trylock_sim", "sim"), seq("seq_trylock_mutex", "mutex"),
+    qs = [nested("c11"), nested("sync"), nested("sim"), nested("mutex")]
+    qs += [seq("seq_trylock_c11", "c11"), seq("seq_trylock_sync", "sync"), seq("seq_trylock_sim", "sim"), seq("seq_trylock_mutex", "mutex"),
           seq("seq_mutex_return_codes", "mutex", rc=True)]
     if tier == "quick":
         mix = ["L", "L", "T"]
